@@ -812,8 +812,12 @@ pub mod system_time_conversion {
             }
             Err(e) => {
                 // Safely convert to i64 microseconds (negative), or return None.
+                // Negate before narrowing, so that i64::MIN itself (whose magnitude does not fit
+                // in an i64) is representable.
                 let micros: u128 = e.duration().as_micros();
-                i64::try_from(micros).ok().and_then(i64::checked_neg)
+                i128::try_from(micros)
+                    .ok()
+                    .and_then(|micros| i64::try_from(-micros).ok())
             }
         }
     }
